@@ -18,10 +18,14 @@ import (
 	authtypes "github.com/cosmos/cosmos-sdk/x/auth/types"
 	"pgregory.net/rapid"
 
+	assettypes "github.com/comdex-official/comdex/x/asset/types"
 	auctypes "github.com/comdex-official/comdex/x/auctionsV2/types"
+	"github.com/comdex-official/comdex/x/bandoracle"
+	bandtypes "github.com/comdex-official/comdex/x/bandoracle/types"
 	collectortypes "github.com/comdex-official/comdex/x/collector/types"
 	liqv2types "github.com/comdex-official/comdex/x/liquidationsV2/types"
 	lockertypes "github.com/comdex-official/comdex/x/locker/types"
+	"github.com/comdex-official/comdex/x/market"
 	vaulttypes "github.com/comdex-official/comdex/x/vault/types"
 
 	"verif/rec"
@@ -108,6 +112,59 @@ func (m *vMachine) c15InstallEnv(env c15Env) {
 	}
 }
 
+// c15AfterHooks: a unit of work that failed inside a hook must have left nothing behind. A vault liquidation moves
+// the collateral out of vault custody, stores the locked vault and opens its auction; whatever the environment made
+// fail, afterwards vault custody must still equal the open vaults' collateral and every locked vault of this block must
+// have its auction. (Not asserted when the fault itself drained an account.)
+func (m *vMachine) c15AfterHooks(r *rec.Rec, cs *c15EnvCase) func(int) {
+	known := map[uint64]bool{}
+	for _, lv := range m.c.App.NewliqKeeper.GetLockedVaults(m.c.Ctx) {
+		known[lv.LockedVaultId] = true
+	}
+	return func(block int) {
+		if len(cs.Env.Drains) > 0 {
+			return
+		}
+		c, cfg := m.c, &m.cs.Cfg
+		vaults := c.App.VaultKeeper.GetVaults(c.Ctx)
+		svs := c.App.VaultKeeper.GetStableMintVaults(c.Ctx)
+		for ai := 0; ai < cfg.NColl; ai++ {
+			a := cfg.Assets[ai]
+			sum := sdk.ZeroInt()
+			for _, v := range vaults {
+				if p := m.productByID(v.ExtendedPairVaultID); p != nil && m.inAsset(p).Denom == a.Denom {
+					sum = sum.Add(v.AmountIn)
+				}
+			}
+			for _, sv := range svs {
+				if p := m.productByID(sv.ExtendedPairVaultID); p != nil && m.inAsset(p).Denom == a.Denom {
+					sum = sum.Add(sv.AmountIn)
+				}
+			}
+			held := c.Bal(vaultAddr(), a.Denom)
+			if u, ok := m.unsol[a.Denom]; ok {
+				held = held.Sub(u)
+			}
+			if !held.Equal(sum) {
+				r.Fail(m.t, "C15.failed-unit-leaves-partial-writes", "vault-custody", cs, "block %d after the fault: vault custody holds %s%s, open vaults record %s (environment %+v)", block, held, a.Denom, sum, cs.Env)
+			}
+		}
+		live := map[uint64]int{}
+		for _, a := range c.App.NewaucKeeper.GetAuctions(c.Ctx) {
+			live[a.LockedVaultId]++
+		}
+		for _, lv := range c.App.NewliqKeeper.GetLockedVaults(c.Ctx) {
+			if known[lv.LockedVaultId] {
+				continue // locked before the fault; its auction may have been settled since
+			}
+			known[lv.LockedVaultId] = true
+			if live[lv.LockedVaultId] != 1 {
+				r.Fail(m.t, "C15.failed-unit-leaves-partial-writes", "locked-vault-without-auction", cs, "block %d after the fault: locked vault %d (%s, original vault %d) has %d live auctions (environment %+v)", block, lv.LockedVaultId, lv.InitiatorType, lv.OriginalVaultId, live[lv.LockedVaultId], cs.Env)
+			}
+		}
+	}
+}
+
 func (m *lMachine) c15InstallEnv(env c15Env) {
 	c := m.c
 	for _, d := range env.Drains {
@@ -146,7 +203,7 @@ func (m *lMachine) c15InstallEnv(env c15Env) {
 	}
 }
 
-func c15EnvRun(t rec.TB, r *rec.Rec, cs *c15EnvCase, c *world.Chain, install func()) {
+func c15EnvRun(t rec.TB, r *rec.Rec, cs *c15EnvCase, c *world.Chain, install func(), after func(block int)) {
 	// the hooks of several consecutive blocks on one branch: EndBlocker(H), BeginBlocker(H+1), EndBlocker(H+1) ...
 	save := c.Ctx
 	saveH, saveT := c.Height, c.Time
@@ -185,6 +242,9 @@ func c15EnvRun(t rec.TB, r *rec.Rec, cs *c15EnvCase, c *world.Chain, install fun
 			}
 			r.Fail(t, "C15.block-hooks-panic-under-environment-fault", what, cs, "block %d after the fault: panic escaped the hooks: %.300v (environment %+v)", i+1, escaped, cs.Env)
 			return
+		}
+		if after != nil {
+			after(i + 1)
 		}
 	}
 	r.NonTrivial(cs)
@@ -248,7 +308,7 @@ func TestC15_env(t *testing.T) {
 					m.apply(i, op)
 				}
 				cs.Env = c15GenEnv(rt, len(vc.Cfg.Assets), true, len(vc.Cfg.Lockers))
-				c15EnvRun(rt, r, cs, m.c, func() { m.c15InstallEnv(cs.Env) })
+				c15EnvRun(rt, r, cs, m.c, func() { m.c15InstallEnv(cs.Env) }, m.c15AfterHooks(r, cs))
 			} else {
 				lc := &lCase{Cfg: genLCfg(rt)}
 				cs.L = lc
@@ -260,7 +320,7 @@ func TestC15_env(t *testing.T) {
 					m.apply(i, op)
 				}
 				cs.Env = c15GenEnv(rt, 2, false, 0)
-				c15EnvRun(rt, r, cs, m.c, func() { m.c15InstallEnv(cs.Env) })
+				c15EnvRun(rt, r, cs, m.c, func() { m.c15InstallEnv(cs.Env) }, nil)
 			}
 		})
 	})
@@ -278,13 +338,13 @@ func init() {
 			for i, op := range cs.V.Ops {
 				m.apply(i, op)
 			}
-			c15EnvRun(t, r, &cs, m.c, func() { m.c15InstallEnv(cs.Env) })
+			c15EnvRun(t, r, &cs, m.c, func() { m.c15InstallEnv(cs.Env) }, m.c15AfterHooks(r, &cs))
 		} else {
 			m := newLMachine(t, r, "C15", cs.L)
 			for i, op := range cs.L.Ops {
 				m.apply(i, op)
 			}
-			c15EnvRun(t, r, &cs, m.c, func() { m.c15InstallEnv(cs.Env) })
+			c15EnvRun(t, r, &cs, m.c, func() { m.c15InstallEnv(cs.Env) }, nil)
 		}
 	}
 }
@@ -311,5 +371,86 @@ func init() {
 		var c c17PCase
 		_ = json.Unmarshal(raw, &c)
 		c17RunPipeline(t, r, &c)
+	}
+}
+
+// ---- oraclecount: the number of oracle-priced assets and the number of rates in the last band answer disagree ----
+
+type c15CountCase struct {
+	N      uint64     `json:"twa_batch"`
+	Extra  []bool     `json:"extra_assets"` // assets registered after the two of the fixture; true = oracle price required
+	Rounds [][]uint64 `json:"rounds"`       // rates of the successive band answers (any length, may be empty)
+}
+
+func c15CountRun(t rec.TB, r *rec.Rec, c *c15CountCase) {
+	c17Setup()
+	r.Eval()
+	app := c17Chain.App
+	ctx, _ := c17Chain.Ctx.CacheContext()
+	ctx = ctx.WithBlockHeight(101)
+	msg := bandtypes.MsgFetchPriceData{Creator: "c", OracleScriptID: 7, SourceChannel: "channel-0", AskCount: 1, MinCount: 1,
+		FeeLimit: sdk.NewCoins(sdk.NewInt64Coin("uband", 1)), PrepareGas: 1, ExecuteGas: 1, TwaBatchSize: c.N, AcceptedHeightDiff: 40}
+	if err := app.BandoracleKeeper.AddFetchPriceRecords(ctx, msg); err != nil {
+		panic(err)
+	}
+	oracleAssets := 2
+	for i, need := range c.Extra {
+		n := "XTR" + string(rune('A'+i))
+		if err := app.AssetKeeper.AddAssetRecords(ctx, assettypes.Asset{Name: n, Denom: "u" + n, Decimals: sdk.NewInt(1000000), IsOnChain: true, IsOraclePriceRequired: need}); err != nil {
+			panic(err)
+		}
+		if need {
+			oracleAssets++
+		}
+	}
+	h := int64(100)
+	mismatch := false
+	for i, rates := range c.Rounds {
+		h += 20
+		ctx = ctx.WithBlockHeight(h)
+		app.BandoracleKeeper.SetFetchPriceResult(ctx, bandtypes.OracleRequestID(i+1), bandtypes.FetchPriceResult{Rates: rates})
+		app.BandoracleKeeper.SetLastFetchPriceID(ctx, bandtypes.OracleRequestID(i+1))
+		if len(rates) > 0 && len(rates) != oracleAssets {
+			mismatch = true
+		}
+		func() {
+			defer func() {
+				if x := recover(); x != nil {
+					r.Fail(t, "C15.no-panic", fmt.Sprintf("oracle-assets=%d,rates=%d", oracleAssets, len(rates)), c, "round %d at height %d: begin blockers panicked: %v", i, h, x)
+				}
+			}()
+			bandoracle.BeginBlocker(ctx, abci.RequestBeginBlock{}, app.BandoracleKeeper)
+			market.BeginBlocker(ctx, abci.RequestBeginBlock{}, app.MarketKeeper, app.BandoracleKeeper, app.AssetKeeper)
+		}()
+	}
+	if mismatch {
+		r.NonTrivial(c)
+	}
+}
+
+func TestC15_oraclecount(t *testing.T) {
+	r := rec.New("C15", "oraclecount")
+	t.Cleanup(r.Flush)
+	rapid.Check(t, func(rt *rapid.T) {
+		c := &c15CountCase{N: uint64(rapid.IntRange(1, 4).Draw(rt, "n"))}
+		for i, n := 0, rapid.IntRange(0, 3).Draw(rt, "nextra"); i < n; i++ {
+			c.Extra = append(c.Extra, rapid.IntRange(0, 3).Draw(rt, "oracle") > 0)
+		}
+		for i, n := 0, rapid.IntRange(2, 8).Draw(rt, "rounds"); i < n; i++ {
+			var rates []uint64
+			for j, k := 0, rapid.IntRange(0, 6).Draw(rt, "nrates"); j < k; j++ {
+				rates = append(rates, rapid.SampledFrom(c17Rates).Draw(rt, "rate"))
+			}
+			c.Rounds = append(c.Rounds, rates)
+		}
+		r.Guard(func() { c15CountRun(rt, r, c) })
+	})
+}
+
+func init() {
+	replayers["C15.oraclecount"] = func(t *testing.T, r *rec.Rec, raw json.RawMessage) {
+		var c c15CountCase
+		_ = json.Unmarshal(raw, &c)
+		c15CountRun(t, r, &c)
 	}
 }
